@@ -1,0 +1,45 @@
+//! Verification seam, compiled only with `--cfg flipdot_verif`.
+//!
+//! Lets a deterministic simulator take over the pacing sleeps of `SerialSignBus`.
+//! With no sleep function installed on the current thread, `sleep` is `std::thread::sleep`,
+//! so behaviour is unchanged even when the guard is on.
+
+use std::cell::RefCell;
+use std::fmt::{self, Debug, Formatter};
+use std::time::Duration;
+
+/// Sleep function installed by a simulator for the current thread.
+pub struct SleepFn(pub Box<dyn FnMut(Duration)>);
+
+impl Debug for SleepFn {
+    fn fmt(&self, f: &mut Formatter<'_>) -> fmt::Result {
+        write!(f, "<SleepFn>")
+    }
+}
+
+thread_local! {
+    static SLEEP: RefCell<Option<SleepFn>> = const { RefCell::new(None) };
+}
+
+/// Installs (or, with `None`, removes) the sleep function for the current thread,
+/// returning the one that was installed before.
+pub fn set_sleep(f: Option<SleepFn>) -> Option<SleepFn> {
+    SLEEP.with(|s| std::mem::replace(&mut *s.borrow_mut(), f))
+}
+
+/// Sleeps for `duration`: through the installed function if there is one, for real otherwise.
+pub fn sleep(duration: Duration) {
+    let installed = SLEEP.with(|s| s.borrow_mut().take());
+    match installed {
+        Some(mut f) => {
+            (f.0)(duration);
+            SLEEP.with(|s| {
+                let mut slot = s.borrow_mut();
+                if slot.is_none() {
+                    *slot = Some(f);
+                }
+            });
+        }
+        None => std::thread::sleep(duration),
+    }
+}
